@@ -61,7 +61,8 @@ def get_instr_expr_args(l, args, my_eip):
     elif l.m.name in jcc:
         e = mnemo_func[l.m.name](l, my_eip, args[0])
     elif l.m.name in ['call']:
-        e = mnemo_func[l.m.name](l, my_eip, args[0])
+        # (a far call has two operands: offset, selector)
+        e = mnemo_func[l.m.name](l, my_eip, *args)
     elif l.m.name in mnemo_func:
         e = mnemo_func[l.m.name](l, *args)
     elif '#' in l.m.name:
